@@ -71,4 +71,109 @@ Search(g, src, dst, k) ==
   IF P = {} THEN [found |-> FALSE, path |-> <<>>, cost |-> 0]
   ELSE LET p == CHOOSE q \in P : \A r \in P : PathCost(g, q) <= PathCost(g, r) IN
        [found |-> TRUE, path |-> [i \in DOMAIN p |-> p[i][1]], cost |-> PathCost(g, p)]
+
+(* ------------------------------------------------------------------------------------------------
+   The search AS IMPLEMENTED (crates/sdk/src/market_graph/mod.rs), transcribed step by step, so that a
+   recorded failure can be told apart: behaviour of this design (a known finding may cover it) or a
+   deviation of the code from it (never covered).
+
+   petgraph order: tokens become nodes in order of first appearance (long token, then short token of
+   each inserted market); every market adds the edge a -> b and then b -> a; `edges(u)` yields the
+   outgoing edges of u newest first. *)
+NoDist == Inf
+NoPred == <<0, 0>>
+RECURSIVE NodeSeqFrom(_, _, _)
+NodeSeqFrom(g, i, acc) ==
+  IF i > Len(g.mk) THEN acc
+  ELSE LET a    == g.mk[i].a
+           b    == g.mk[i].b
+           acc1 == IF a \in Range(acc) THEN acc ELSE Append(acc, a)
+           acc2 == IF b \in Range(acc1) THEN acc1 ELSE Append(acc1, b) IN
+       NodeSeqFrom(g, i + 1, acc2)
+Nodes(g) == NodeSeqFrom(g, 1, <<>>)
+RECURSIVE OutFrom(_, _, _)
+OutFrom(g, u, i) ==       \* outgoing edges of u (with or without an estimation), newest first
+  IF i = 0 THEN <<>>
+  ELSE (IF g.mk[i].b = u THEN << <<i, 2>> >> ELSE IF g.mk[i].a = u THEN << <<i, 1>> >> ELSE <<>>)
+       \o OutFrom(g, u, i - 1)
+Out(g, u) == OutFrom(g, u, Len(g.mk))
+
+(* one relaxation of bellman_ford's inner loop; st = [dist, pred, upd] *)
+Relax(g, k, steps, st, u, e) ==
+  LET j == To(g, e)
+      w == Cost(g, e) IN
+  IF w = NoEdge \/ st.dist[u] = NoDist THEN st
+  ELSE IF st.dist[j] = NoDist \/ st.dist[u] + w < st.dist[j]
+       THEN [dist |-> [st.dist EXCEPT ![j] = st.dist[u] + w],
+             pred |-> IF steps <= k THEN [st.pred EXCEPT ![j] = <<u, e[1]>>] ELSE st.pred,
+             upd  |-> TRUE]
+       ELSE st
+RECURSIVE RelaxEdges(_, _, _, _, _, _, _)
+RelaxEdges(g, k, steps, st, u, es, x) ==
+  IF x > Len(es) THEN st ELSE RelaxEdges(g, k, steps, Relax(g, k, steps, st, u, es[x]), u, es, x + 1)
+RECURSIVE RelaxNodes(_, _, _, _, _, _)
+RelaxNodes(g, k, steps, st, ns, x) ==
+  IF x > Len(ns) THEN st
+  ELSE RelaxNodes(g, k, steps, RelaxEdges(g, k, steps, st, ns[x], Out(g, ns[x]), 1), ns, x + 1)
+(* `for steps in 1..node_count`: in-place rounds, stop when nothing changed, snapshot of the distances
+   taken after round max_steps *)
+RECURSIVE BFRounds(_, _, _, _, _)
+BFRounds(g, k, steps, st, snap) ==
+  IF steps >= Len(Nodes(g)) THEN [dist |-> st.dist, pred |-> st.pred, snap |-> snap]
+  ELSE LET r == RelaxNodes(g, k, steps, [st EXCEPT !.upd = FALSE], Nodes(g), 1) IN
+       IF ~r.upd THEN [dist |-> r.dist, pred |-> r.pred, snap |-> snap]
+       ELSE BFRounds(g, k, steps + 1, r, IF steps = k THEN <<TRUE, r.dist>> ELSE snap)
+Start(g, src) == [dist |-> [t \in 1..g.n |-> IF t = src THEN 0 ELSE NoDist],
+                  pred |-> [t \in 1..g.n |-> NoPred], upd |-> FALSE]
+CodeBF(g, src, k) == BFRounds(g, k, 1, Start(g, src), <<FALSE, <<>>>>)
+(* the final check for a negative weight cycle *)
+CodeNeg(g, dist) ==
+  \E x \in DOMAIN Nodes(g) : \E y \in DOMAIN Out(g, Nodes(g)[x]) :
+     LET u == Nodes(g)[x]
+         e == Out(g, u)[y] IN
+     /\ Cost(g, e) # NoEdge /\ dist[u] # NoDist
+     /\ (dist[To(g, e)] = NoDist \/ dist[u] + Cost(g, e) < dist[To(g, e)])
+
+(* dfs_recursive; d = NoDist stands for a `None` distance; visited is restored on return *)
+RECURSIVE CodeDfs(_, _, _, _, _, _, _, _)
+RECURSIVE CodeDfsEdges(_, _, _, _, _, _, _, _, _)
+CodeDfs(g, k, cur, d, p, steps, visited, st) ==
+  IF steps > k \/ d = NoDist THEN st
+  ELSE IF st.dist[cur] # NoDist /\ d >= st.dist[cur] THEN st
+  ELSE CodeDfsEdges(g, k, cur, d, steps, visited \cup {cur}, Out(g, cur), 1,
+                    [dist |-> [st.dist EXCEPT ![cur] = d], pred |-> [st.pred EXCEPT ![cur] = p]])
+CodeDfsEdges(g, k, cur, d, steps, visited, es, x, st) ==
+  IF x > Len(es) THEN st
+  ELSE LET e == es[x]
+           j == To(g, e) IN
+       IF j \in visited THEN CodeDfsEdges(g, k, cur, d, steps, visited, es, x + 1, st)
+       ELSE CodeDfsEdges(g, k, cur, d, steps, visited, es, x + 1,
+              CodeDfs(g, k, j, IF Cost(g, e) = NoEdge THEN NoDist ELSE Cost(g, e) + d,
+                      <<cur, e[1]>>, steps + 1, visited, st))
+CodeDfsAll(g, src, k) ==
+  CodeDfs(g, k, src, 0, NoPred, 0, {},
+          [dist |-> [t \in 1..g.n |-> NoDist], pred |-> [t \in 1..g.n |-> NoPred]])
+
+(* best_swap_paths(source, skip_bellman_ford) *)
+CodeSearch(g, src, k, skip) ==
+  IF skip THEN LET r == CodeDfsAll(g, src, k) IN [dist |-> r.dist, pred |-> r.pred, arb |-> "none"]
+  ELSE LET bf == CodeBF(g, src, k) IN
+       IF CodeNeg(g, bf.dist)
+       THEN LET r == CodeDfsAll(g, src, k) IN [dist |-> r.dist, pred |-> r.pred, arb |-> "true"]
+       ELSE [dist |-> IF bf.snap[1] THEN bf.snap[2] ELSE bf.dist, pred |-> bf.pred, arb |-> "false"]
+
+(* BestSwapPaths::to(target): walk the predecessors, give up after max_steps *)
+RECURSIVE CodeBack(_, _, _, _, _)
+CodeBack(c, k, cur, steps, path) ==      \* cur = a predecessor entry; <<ok, path from target backwards>>
+  IF cur = NoPred THEN <<TRUE, path>>
+  ELSE IF steps + 1 > k THEN <<FALSE, <<>>>>
+  ELSE CodeBack(c, k, c.pred[cur[1]], steps + 1, Append(path, cur[2]))
+Reverse(s) == [x \in 1..Len(s) |-> s[Len(s) + 1 - x]]
+CodeTo(c, k, src, dst) ==
+  LET has == c.dist[dst] # NoDist
+      cost == IF has THEN c.dist[dst] ELSE 0 IN
+  IF src = dst THEN [found |-> has, path |-> <<>>, has_dist |-> has, cost |-> cost]
+  ELSE LET b == CodeBack(c, k, c.pred[dst], 0, <<>>) IN
+       IF ~b[1] \/ b[2] = <<>> THEN [found |-> FALSE, path |-> <<>>, has_dist |-> has, cost |-> cost]
+       ELSE [found |-> has, path |-> Reverse(b[2]), has_dist |-> has, cost |-> cost]
 =============================================================================
